@@ -106,7 +106,7 @@ struct UpCase {
 	include_id: Option<bool>,
 }
 
-const ID_CELLS: [&str; 17] = ["0", "1", "2", "3", "4", "5", "6", "-1", "-2", "a", "b", "c", "d", "x y", "1.5", "-2.25", "true"];
+const ID_CELLS: [&str; 20] = ["0", "1", "2", "3", "4", "5", "6", "-1", "-2", "a", "b", "c", "d", "x y", "1.5", "-2.25", "true", "0.1", "2.3", "-3.14159"];
 
 /// How the data file's cells are typed (the documented rule of the CSV import): empty -> empty
 /// string, true/false -> bool, [-]digits*.digits+ -> double, -digits+ -> int, digits+ -> uint,
@@ -253,7 +253,9 @@ fn value_for_cell(cell: &str, m: &mut Mix) -> Value {
 		}
 		CanonValue::F64(b) => {
 			let f = f64::from_bits(b);
-			if pickv == 0 && (f as f32) as f64 == f {
+			// an f32 whose own shortest text is the cell's text (0.1 as f32 prints as 0.1 although it
+			// is not the double 0.1): the join goes by the text
+			if pickv == 0 && (f as f32).to_string() == cell {
 				Value::Float((f as f32).to_bits())
 			} else {
 				Value::Double(b)
